@@ -4,7 +4,7 @@
   `ApiSafe` under which the link-following primitives cannot panic. `WF → ApiSafe` and the
   iterators are in `Rox.Props.C10Tree`.)
 -/
-import Rox.Props.C14
+import Rox.Props.C14Base
 import Rox.Spec.Tree
 import Rox.Lemmas.TreeApi
 
